@@ -4,10 +4,10 @@ hook_commits=[l.split()[0] for l in hook if "verif hook" in l]
 T = {
  "C01": ("exploration","seeded swarm of full simulated runs (all bound geometries incl. log/mixed/unbounded/tight, optimum outside the box, all noise modes, constraints, GP fit/prediction faults in a quarter of runs); every target call, every constraint-function row, the result and every logged point judged exactly", "6.C01"),
  "C02": ("exploration","seeded swarm of constrained runs (ball/half-space/slab/annulus/union/tiny/pinhole regions x log transforms x noise modes; feasible, near-boundary and infeasible starting points); every target call judged by the region spec itself, constructor rejections checked for zero calls", "6.C02"),
- "C03": ("exploration","bounded liveness: seeded runs with tiny-to-default budgets, max_iter, tol_mesh, scripted-outcome adversary targets and pinhole constraints; independent call counter, budget precondition measured, poll-step count, online non-progress bound via the loop hook, termination message re-derived from the recorded history; a wall timeout is itself a violation", "6.C03"),
+ "C03": ("exploration","bounded liveness: seeded runs with tiny-to-default budgets, max_iter, tol_mesh, scripted-outcome adversary targets, pinhole constraints and scripted search-outcome gates at the constraint seam; independent call counter, budget precondition measured, poll-step count, online non-progress bound via the loop hook, termination message re-derived from the recorded history; a wall timeout is itself a violation", "6.C03"),
  "C04": ("exploration","seeded deterministic runs (smooth, |x|, plateaus with ties, constant, boundary optimum, adversary); result compared with the complete call log", "6.C04"),
  "C05": ("exploration","seeded noisy runs (auto-detected, declared, specified heteroskedastic noise; noise_final_samples 0/1/several); tail of the call log vs x, yval_vec, fval, fsd, ysd_vec; noise-detection clause on the first two calls", "6.C05"),
- "C06": ("exploration","fault-free bounded-progress panel: seeded random rotated quadratics with default options; population thresholds of the property plus never-worse-than-start per run", "6.C06"),
+ "C06": ("exploration","fault-free bounded-progress panels: seeded random rotated quadratics with default options (the property's family, the same family plus constant offsets up to 1e5, and warm starts at the minimiser); population thresholds of the property plus never-worse-than-start per run", "6.C06, 15.8"),
  "C07": ("exploration","exploration over process histories: each seeded scenario runs pristine, after a generated history (other optimisations, RNG consumption/reseeding, seterr, logger level, other constructions, ops between construction and run), under another simulated clock schedule and in a fresh interpreter with another PYTHONHASHSEED; call/result digests must be identical", "6.C07"),
  "C09": ("exploration","widest swarm (all modes x constraints x transforms x extreme knobs x hostile environments) plus non-finite GP predictions at the incumbent, single fit faults and clock faults; any exception escaping optimize()/constructor (other than ValueError for an invalid definition) is a violation classed by type and innermost pybads frame", "6.C09"),
  "C10": ("fault_enumeration","fault enumeration over target call indices: fault-free base runs in all noise modes give the call count and a phase label per call; re-runs place one fault (7 exception types, 10 invalid values, 4 bad pair forms, 8 bad SDs) at chosen logical positions (quick: >=1 per phase; thorough: every index)", "6.C10"),
@@ -16,7 +16,7 @@ T = {
  "C14": ("exploration","generator workload: poll_mads_2n under a scheduler-owned enumerable random source (measured coverage of the finite choice space per (D, ratio)); plus every poll step of full runs matched against the basis actually generated", "6.C14"),
  "C15": ("exploration","every local GP fit, incremental add and acquisition call of seeded runs in all noise modes: training pairs vs the log (noise as variance), nearest-neighbour/order/size against the metric at entry, LCB value recomputed with an independent prediction", "6.C15"),
  "C16": ("fault_enumeration","fault enumeration over GP.fit invocation indices and posterior updates of base runs (deterministic, declared, specified noise): single faults, bursts of 2-4, scattered plans, failing at entry or mid-fit; run must complete with C01/C02/C03(a-c)/C04 monitors silent", "6.C16"),
- "C17": ("exploration","every candidate-filter call of seeded runs (optimum on/outside the boundary emphasised) plus filter operations of the log machine on adversarial log states; output judged clause by clause; repeat evaluations attributed to the filter or not", "6.C17"),
+ "C17": ("exploration","every candidate-filter call of seeded runs (optimum on/outside the boundary emphasised) plus filter operations of the log machine on adversarial log states and box faces; output judged clause by clause; every evaluated point must be a row of the set its filter handed on; repeat evaluations attributed to the filter or not", "6.C17, 15.8"),
  "C18": ("exploration","every evolution-strategy call: returned value vs the minimum of all acquisition values computed in that call, candidates inside the mesh-rounded box and feasible, selection masks in range, hedge probabilities, <=1 evaluation per search step; population sizes 2-4096 and pruning constraints", "6.C18"),
  "C19": ("exploration","history/result of seeded runs in all noise modes vs the call log and final state (incl. mutation of optimiser state afterwards); container machine on IterationHistory/OptimizeResult against a dict-of-lists model", "6.C19"),
  "C20": ("exploration","exploration over process histories: seeded sequences of construct/run/inspect/misspelt-construct on 1-4 instances (nested construction inside a target callback) against an independent evaluator of the option files; isolation and caller-object checks after every op", "6.C20"),
@@ -44,7 +44,7 @@ m={"version":1,
  "not_applicable":[
   {"property_id":"C08","reason":"constructor validation is a pure function of (x0, lb, ub, plb, pub): no schedule, clock, fault, interleaving or history can change the outcome, so it is not a simulation target (DESIGN.md 6.C08); deciding it means enumerating input cells, a different technique"},
   {"property_id":"C11","reason":"the variable transform is a pure numeric function of (bounds, point) with nothing to schedule or fault (DESIGN.md 6.C11)"}],
- "notes":"exit codes: 0 held (possibly with KNOWN-FINDING lines), 1 VIOLATION, 2 harness error. VERIF_SEED selects the seed; VERIF_WORKERS the parallelism. Known findings: KNOWN_FINDINGS.txt."}
+ "notes":"DESIGN.md section 15 is the implementation record (defects repaired, known findings, corrected false alarms, which independently seeded changes each check catches). exit codes: 0 held (possibly with KNOWN-FINDING lines), 1 VIOLATION, 2 harness error. VERIF_SEED selects the seed; VERIF_WORKERS the parallelism. Known findings: KNOWN_FINDINGS.txt."}
 json.dump(m,open("/verif/MANIFEST.json","w"),indent=1)
 import jsonschema
 jsonschema.validate(m,json.load(open("/root/.vp/MANIFEST.schema.json")))
